@@ -73,6 +73,10 @@ func ModStmts() []Stmt {
 	add("replace", "replace a.com/x => \"../a b\\u005c\\u005c\"\n")
 	add("replace", "replace a.com/x => \"../\\x22quoted\\x22 dir\"\n")
 	add("replace", "replace a.com/x => \"../nl\\x0adir\"\n")
+	// escapes that produce bytes which are not valid UTF-8, or U+FFFD itself
+	add("replace", "replace a.com/x => \"./caf\\xe9\"\n")
+	add("replace", "replace a.com/x => \"./x\\ufffdy\" // s\n")
+	add("replace", "replace a.com/x => \"./\\377\\xc3\"\n")
 	add("replace", "replace (\n\ta.com/x => ./x\n\t// b\n\tb.com/y v1.0.0 => c.com/z v1.2.0 // s\n)\n")
 	addFix("replace", "replace a.com/x v1 => b.com/y v1.1\n")
 	addFix("replace", "replace a.com/x => b.com/y v1\n")
@@ -129,6 +133,8 @@ func WorkStmts() []Stmt {
 	add("use", "use \"./o'brien\"\n")
 	add("use", "use \"./say\\\"hi\\\"\"\n")
 	add("use", "use \"./my modules\\x5c\"\n")
+	add("use", "use \"./caf\\xe9\"\n")
+	add("use", "use \"./a\\u00a0b\"\n")
 	add("use", "use \"./a\\134\" // s\n")
 	add("use", "use (\n\t./a\n\t// b\n\t../b // s\n)\n")
 	add("use", "// bb\nuse (\n\t./a\n\n\t./c\n)\n")
